@@ -54,7 +54,7 @@ func execC11(t *testing.T, c any, o *Outcome) {
 	okBase := liveness(o, base, pc.Algo+" (1 thread, sequential schedule)")
 	budget := base.Sched.Steps*100 + 20000
 	// 2. run under the drawn schedule
-	got := runPipe(t, pc, pc.Cpus, pc.Sched, budget)
+	got := runPipeT(t, pc, pc.Cpus, pc.Sched, budget, base.Sched.Stmts)
 	okGot := liveness(o, got, fmt.Sprintf("%s (%d threads)", pc.Algo, pc.Cpus))
 	o.Steps = int64(base.Sched.Steps + got.Sched.Steps)
 	o.Key = fmt.Sprintf("%s/%d/%016x", pc.Algo, pc.Cpus, got.Sched.Hash)
@@ -67,6 +67,9 @@ func execC11(t *testing.T, c any, o *Outcome) {
 	}
 	if pc.Cpus > len(pc.Recs) {
 		o.Probe("more-threads-than-trees")
+	}
+	if got.Sched.Preempted > 0 {
+		o.Probe("preempted-inside-callee")
 	}
 	if !okBase || !okGot {
 		return
